@@ -305,3 +305,112 @@ End Mode.
 Lemma string_tags_only_utf8 simple st s st' w :
   enc_string simple st s = (st', w) -> tok_ok w = true.
 Proof. apply enc_string_ok. apply str_ok_all. Qed.
+
+(* ---- encoding is total: the only failure of the encoder model on a closed heap is the
+   year-out-of-range time (site 1: Encoder.Error since the fix, a panic before) ------------- *)
+
+Fixpoint ptrs_ok (hp : heap) (v : gval) : bool :=
+  match v with
+  | GPtr a => match hlookup hp a with Some _ => true | None => false end
+  | GSlice vs | GList vs | GMap vs | GStruct _ _ vs | GAnon _ vs => forallb (ptrs_ok hp) vs
+  | _ => true
+  end.
+
+Definition heap_closed (hp : heap) : bool := forallb (fun av => ptrs_ok hp (snd av)) hp.
+
+Lemma hlookup_closed_gen hp0 : forall hp a v,
+  forallb (fun av => ptrs_ok hp0 (snd av)) hp = true -> hlookup hp a = Some v -> ptrs_ok hp0 v = true.
+Proof.
+  induction hp as [|[a' v'] hp IH]; intros a v H; cbn in *; [discriminate|].
+  apply andb_prop in H. destruct H as [Hv Hr].
+  destruct (N.eqb a a'); [intros E; inversion E; subst; exact Hv | apply IH; exact Hr].
+Qed.
+
+Lemma hlookup_closed hp a v : heap_closed hp = true -> hlookup hp a = Some v -> ptrs_ok hp v = true.
+Proof. apply hlookup_closed_gen. Qed.
+
+Section Total.
+Variable simple : bool.
+Variable hp : heap.
+
+Definition rec_total (rec : estate -> gval -> eres) : Prop :=
+  forall st v s, ptrs_ok hp v = true -> rec st v = EPanic s -> s = 1%N.
+
+Lemma enc_seq_total rec : rec_total rec -> forall vs st s,
+  forallb (ptrs_ok hp) vs = true -> enc_seq rec st vs = inr (EPanic s) -> s = 1%N.
+Proof.
+  intros Hrec. induction vs as [|v vs IH]; intros st s Hok H; cbn [enc_seq] in H; [discriminate|].
+  cbn [forallb] in Hok. apply andb_prop in Hok. destruct Hok as [Hv Hvs].
+  destruct (rec st v) as [st1 w| s1 |] eqn:E.
+  - destruct (enc_seq rec st1 vs) as [[[st2 ws']|]|] eqn:E2; try discriminate.
+    inversion H; subst. eapply IH; eauto.
+  - inversion H; subst. eapply Hrec; eauto.
+  - discriminate.
+Qed.
+
+Lemma enc_anon_total rec : rec_total rec -> forall fields vs st s,
+  forallb (ptrs_ok hp) vs = true -> enc_anon_fields simple rec st fields vs = inr (EPanic s) -> s = 1%N.
+Proof.
+  intros Hrec. induction fields as [|f fields IH]; intros vs st s Hok H; [destruct vs; discriminate|].
+  destruct vs as [|v vs]; [discriminate|]. cbn [enc_anon_fields] in H.
+  cbn [forallb] in Hok. apply andb_prop in Hok. destruct Hok as [Hv Hvs].
+  destruct (enc_string simple st f) as [st1 wf].
+  destruct (rec st1 v) as [st2 w2| s1 |] eqn:E.
+  - destruct (enc_anon_fields simple rec st2 fields vs) as [[[st3 ws']|]|] eqn:E2; try discriminate.
+    inversion H; subst. eapply IH; eauto.
+  - inversion H; subst. eapply Hrec; eauto.
+  - discriminate.
+Qed.
+
+Lemma enc_body_total rec r : rec_total rec -> forall st v s,
+  tracked v = true -> ptrs_ok hp v = true -> enc_body simple rec r st v = EPanic s -> s = 1%N.
+Proof.
+  intros Hrec st v s Ht Hok H. destruct v; cbn [tracked] in Ht; try discriminate; cbn [enc_body] in H; cbn [ptrs_ok] in Hok.
+  - destruct (length rows =? 0)%nat; discriminate.
+  - destruct (enc_seq rec (register simple st r) vs) as [[[st2 ws]|]|] eqn:E; try discriminate.
+    subst e. eapply enc_seq_total; eauto.
+  - destruct (enc_seq rec (register simple st r) kvs) as [[[st2 ws]|]|] eqn:E; try discriminate.
+    subst e. eapply enc_seq_total; eauto.
+  - destruct (class_lookup st name) as [k|].
+    + destruct (enc_seq rec (register simple st r) vs) as [[[st3 ws]|]|] eqn:E; try discriminate.
+      subst e. eapply enc_seq_total; eauto.
+    + destruct (class_define simple st name (N.of_nat (length fields))) as [s' k].
+      destruct (enc_seq rec (register simple s' r) vs) as [[[st3 ws]|]|] eqn:E; try discriminate.
+      subst e. eapply enc_seq_total; eauto.
+  - destruct (enc_anon_fields simple rec (register simple st r) fields vs) as [[[st2 ws]|]|] eqn:E; try discriminate.
+    subst e. eapply enc_anon_total; eauto.
+  - destruct (enc_time y mo d h mi s0 ns utc); [discriminate|]. inversion H; reflexivity.
+  - destruct (enc_seq rec (register simple st r) vs) as [[[st2 ws]|]|] eqn:E; try discriminate.
+    subst e. eapply enc_seq_total; eauto.
+Qed.
+
+Lemma enc_step_total rec : heap_closed hp = true -> rec_total rec -> rec_total (enc_step simple hp rec).
+Proof.
+  intros Hh Hrec st v s Hok H.
+  destruct v as [ | b | k z | fv | re im imz | str | bs | rows | vs | kvs | name fields vs | fields vs
+                 | y mo d h mi sec ns utc | txt | z | txt | num txt | vs | msg | addr ];
+    cbn [enc_step] in H;
+    try (match type of H with enc_body _ _ _ _ ?v0 = _ => exact (enc_body_total rec ByCount Hrec st v0 s eq_refl Hok H) end);
+    try discriminate.
+  - destruct imz; discriminate.
+  - destruct (enc_string simple st str); discriminate.
+  - destruct num; discriminate.
+  - cbn [ptrs_ok] in Hok. destruct (hlookup hp addr) as [pv|] eqn:El; [|discriminate].
+    pose proof (hlookup_closed _ _ _ Hh El) as Hpv.
+    destruct (tracked pv) eqn:Ht.
+    + destruct (lookup_ptr simple st addr); [discriminate|].
+      eapply enc_body_total; eauto.
+    + eapply Hrec; eauto.
+Qed.
+
+Theorem enc_total : forall fuel st v s,
+  heap_closed hp = true -> ptrs_ok hp v = true ->
+  enc simple hp fuel st v = EPanic s -> s = 1%N.
+Proof.
+  intros fuel st v s Hh. revert st v s.
+  induction fuel as [|f IH]; intros st v s Hok H; [discriminate|].
+  cbn [enc] in H. eapply (enc_step_total (enc simple hp f) Hh); [|exact Hok|exact H].
+  intros st0 v0 s0 Hv0 H0. eapply IH; eauto.
+Qed.
+
+End Total.
